@@ -64,6 +64,14 @@ UNICODE_NAMES = ["\u6ce8\u6587", "\u72b6\u614bKind", "\u30c7\u30fc\u30bf", "\u05
 ODD_INITIAL_NAMES = ["\u00e9lan", "\u00dftrasse", "\u0434\u0430\u0442\u0430", "\u03c9mega", "_Hidden2", "lower_case"]
 
 
+# spellings HEAD and serde both read as "not on the wire": the skip word in the first / second / third attribute, in
+# combined lists, split over skip_serializing + skip_deserializing in two attributes
+SKIP_SPELLINGS = [["skip"], ["default", "skip"], ["skip", "default"], ["default", "rename = \"x_y\"", "skip"], ["default, skip"],
+                  ["skip, default"], ["skip_serializing", "skip_deserializing"], ["rename = \"zz\", skip"]]
+# spellings that do not skip the field
+KEEP_SPELLINGS = [["default"], ["skip_serializing_if = \"Option::is_none\""], ["rename = \"kept\""], ["default", "skip_serializing_if = \"Vec::is_empty\""]]
+
+
 def field_type(ctx, me, t):
     return SELF_CONTEXTS[ctx](me, t) if ctx in SELF_CONTEXTS else CONTEXTS[ctx](t)
 
@@ -203,6 +211,12 @@ def build(spec):
                 fields.append({"name": "p_" + extra[0], "ty": P(extra[1]), "serde": [], "validate": []})
             for sk in t.get("skipped", []):      # #[serde(skip)] field mentioning type sk
                 fields.append({"name": "sk_%d" % sk, "ty": P(types[sk]["name"]), "serde": [{"skip": True}], "validate": []})
+            for (a, b, ctx, spelling) in spec.get("skip_edges", []):     # a field the wire shape does not have
+                if a == i:
+                    attrs = SKIP_SPELLINGS[spelling % len(SKIP_SPELLINGS)]
+                    fields.append({"name": "back_%d_%d" % (b, spelling), "ty": field_type(ctx, P(name), P(types[b]["name"])),
+                                   "serde": [{"raw": x} for x in attrs], "validate": [], "serde_texts": list(attrs),
+                                   "noise": spelling // len(SKIP_SPELLINGS)})
             items[f].append({"kind": "struct", "name": name, "derives": t["derives"], "serde": [], "fields": fields})
             if t.get("attr_shape") is not None:
                 items[f][-1] = shaped(items[f][-1], t["attr_shape"])
@@ -269,8 +283,8 @@ def sx_mapping(spec):
 def sx_item(it):
     k = it["kind"]
     if k == "struct":
-        kind = ["unit"] if it.get("unit") else ["struct", [[any(a.get("skip") for a in f.get("serde", [])), projgen.sx_type(f["ty"])]
-                                                            for f in it["fields"]]]
+        kind = ["unit"] if it.get("unit") else ["struct", [[f["serde_texts"] if f.get("serde_texts") else any(a.get("skip") for a in f.get("serde", [])),
+                                                             projgen.sx_type(f["ty"])] for f in it["fields"]]]
         return ["def", it["name"], list(it.get("derives", [])), kind]
     if k == "enum":
         return ["def", it["name"], list(it.get("derives", [])), ["enum"]]
@@ -779,4 +793,25 @@ def payload_form_specs():
             cmds, helpers = ([fn], []) if where == "cmd" else ([other], [fn])
             specs.append({"types": types, "edges": edges, "cmds": cmds, "helpers": helpers, "nfiles": 2, "alias": False,
                           "shape": "payload-" + form, "acyclic": True, "clean": form in CLEAN_PAYLOAD_FORMS, "naming": "plain"})
+    return specs
+
+
+def skip_edge_specs():
+    """edges that must not exist: back references through skipped fields make an otherwise cyclic graph acyclic; every
+    spelling of the skip; kept spellings (default, skip_serializing_if, rename) on forward edges stay edges"""
+    specs = []
+    for sp in range(len(SKIP_SPELLINGS)):
+        for shape in range(3):
+            names = [["Playlist", "Song", "Artist"], ["Album", "Track", "Label"], ["Zone", "Area", "Cell"]][shape]
+            types = [{"name": names[i], "kind": "struct", "derives": list(SD2), "file": i % 2} for i in range(3)]
+            if shape == 0:      # Playlist -> Song, Song -(skip)-> Playlist
+                edges, skips = [[0, 1, "vec"], [1, 2, "option"]], [[1, 0, "option", sp]]
+            elif shape == 1:    # Album -> Track -> Label, Label -(skip)-> Album, Track -(skip)-> Track
+                edges, skips = [[0, 1, "vec"], [1, 2, "direct"]], [[2, 0, "vec", sp], [1, 1, "option", sp + 1]]
+            else:               # Zone -> Area, Zone -> Cell, Area -> Cell, Cell -(skip)-> Zone and -(skip)-> Area
+                edges, skips = [[0, 1, "vec"], [0, 2, "map_value"], [1, 2, "opt_vec"]], [[2, 0, "direct", sp], [2, 1, "vec", sp + 2]]
+            roots = [["param", i, "direct"] for i in range(3)]
+            specs.append({"types": types, "edges": edges, "skip_edges": skips,
+                          "cmds": [{"name": "save_all", "file": 0, "roots": roots}], "helpers": [], "nfiles": 2, "alias": False,
+                          "shape": "skip-edges", "acyclic": True, "clean": True, "naming": "plain"})
     return specs
